@@ -68,6 +68,9 @@ Q5 = ['softN', 'hardE', 'fixed1', 'softS', 'hardNN']
 T8 = Q5 + ['softEW', 'fixedE_int', 'hardSW']
 
 
+UNITS = [1e-4, 1e3]
+
+
 def slots_of(die):
     W, H = die
     X = 4 if W < 10 else 5
@@ -93,12 +96,16 @@ def build_model(case):
     slots = slots_of(die)
     mods = {}
     layout = []
+    u = float(case.get('unit', 1.0))      # the design is WRITTEN in other units (all lengths x u); the oracle works in slot units
+
+    def nu(shape, v):
+        return num_as(shape, v) if u == 1.0 else float(v) * u
     for i, (shape, si) in enumerate(case['mods']):
         kind, rects = place(shape, slots[si])
-        node = {'rectangles': [[num_as(shape, r['x']), num_as(shape, r['y']), num_as(shape, r['w']), num_as(shape, r['h'])]
+        node = {'rectangles': [[nu(shape, r['x']), nu(shape, r['y']), nu(shape, r['w']), nu(shape, r['h'])]
                                for r in (reversed(rects) if shape.endswith('_rev') else rects)]}
         if kind == 'soft':
-            node['area'] = sum(r['w'] * r['h'] for r in rects)
+            node['area'] = sum((r['w'] * u) * (r['h'] * u) for r in rects)
         elif kind == 'hard':
             node['hard'] = True
         else:
@@ -108,17 +115,20 @@ def build_model(case):
     names = list(mods)
     nets = [names] if len(names) >= 2 else []
     n = Netlist({'Modules': mods, 'Nets': nets})
+    if case.get('assign'):
+        # the rectangles were (re)assigned through the netlist's API after loading, as a floorplanning stage does
+        n.assign_rectangles({nm: [list(r) for r in node['rectangles']] for nm, node in mods.items()})
     # the model lists the rectangles trunk first, then N, S, E, W in the order netlist_to_utils collects them
     with quiet():
         ml, al, xl, yl, wl, hl, hyper, og = lf.netlist_to_utils(n)
-        model = lf.Model(ml, al, xl, yl, wl, hl, float(die[0]), float(die[1]), hyper, float(case['ratio']), og, 0.9, 0.3, 1.0, None)
+        model = lf.Model(ml, al, xl, yl, wl, hl, float(die[0]) * u, float(die[1]) * u, hyper, float(case['ratio']), og, 0.9, 0.3, 1.0, None)
         model.time.assign(1000)
     # map each model rectangle to the layout rectangle by initial coordinates
     index = []
     for mi, mm in enumerate(model.M):
         idx = []
         for j in range(len(mm.x)):
-            key = (mm.x[j].evaluate(), mm.y[j].evaluate(), mm.w[j].evaluate(), mm.h[j].evaluate())
+            key = (mm.x[j].evaluate() / u, mm.y[j].evaluate() / u, mm.w[j].evaluate() / u, mm.h[j].evaluate() / u)
             hit = [k for k, r in enumerate(layout[mi]['rects'])
                    if abs(r['x'] - key[0]) < 1e-9 and abs(r['y'] - key[1]) < 1e-9 and abs(r['w'] - key[2]) < 1e-9 and abs(r['h'] - key[3]) < 1e-9]
             idx.append(hit[0] if hit else None)
@@ -365,16 +375,19 @@ def legality(cfg, base, die, ratio):
     return st
 
 
-def evaluate_system(model, cfg, index):
-    """assign the configuration to the model's variables and evaluate every legality equation"""
+def evaluate_system(model, cfg, index, u=1.0):
+    """assign the configuration (given in slot units; the model is in units of u) to the model's variables and evaluate every
+    legality equation and the bounds of every variable (the bounds are part of the system handed to the solver)"""
+    unmet = []
     for mi, mm in enumerate(model.M):
         for j, k in enumerate(index[mi]):
             r = cfg[mi]['rects'][k]
-            mm.x[j].assign(r['x'])
-            mm.y[j].assign(r['y'])
-            mm.w[j].assign(r['w'])
-            mm.h[j].assign(r['h'])
-    unmet = []
+            for var, val, nm in ((mm.x[j], r['x'] * u, 'x'), (mm.y[j], r['y'] * u, 'y'), (mm.w[j], r['w'] * u, 'w'), (mm.h[j], r['h'] * u, 'h')):
+                var.assign(val)
+                lb, ub = var.data.get('lb'), var.data.get('ub')
+                slack = 1e-6 * max(abs(val), abs(lb or 0.0), abs(ub or 0.0))
+                if (lb is not None and val < lb - slack) or (ub is not None and val > ub + slack):
+                    unmet.append(('VarBounds', f'{nm}[{mi},{j}] in [{lb}, {ub}]'))
     for group in ('Area', 'Inter', 'Fix'):
         for e in model.gekko.constraints.get(group, []):
             if not e.is_equation_met():
@@ -398,6 +411,10 @@ def check_case(case, res):
         return
     reset_frame_state()
     attrs = dict(shapes=[s for s, _ in case['mods']], ratio=case['ratio'])
+    if case.get('unit'):
+        attrs['unit'] = case['unit']
+    if case.get('assign'):
+        attrs['assign'] = True
     try:
         model, layout, index = build_model(case)
     except Exception as e:  # noqa
@@ -423,7 +440,7 @@ def check_case(case, res):
                 res.counters['ambiguous-configuration'] += 1
                 continue
             legal = all(s == OK for s in st.values())
-            unmet = evaluate_system(model, cfg, index)
+            unmet = evaluate_system(model, cfg, index, float(case.get('unit', 1.0)))
             accepted = not unmet
             bad_clauses = sorted(k for k, s in st.items() if s == BAD)
             if accepted != legal:
@@ -552,6 +569,10 @@ def shards(tier):
     out.append(dict(elongated=True))
     for lo in range(0, len(SHAPES), 3):
         out.append(dict(scaled=True, lo=lo, hi=lo + 3))
+    # the complete configuration menu on designs written in other units (mm / um designs in metres, database units) and on
+    # netlists whose rectangles were assigned through the API
+    for lo in range(0, len(SHAPES), 2):
+        out.append(dict(units=True, lo=lo, hi=lo + 2))
     return out
 
 
@@ -568,6 +589,16 @@ def run_shard(shard, tier, res):
             check_case(dict(scaled=100000.3, mods=[[sh, 3]], die=[10, 8] if wide else [8, 8], ratio=2.0), res)
             for other in ('softN', 'hard1'):
                 check_case(dict(scaled=100000.3, mods=[[sh, 0], [other, 1]], die=[10, 8] if wide else [8, 8], ratio=2.0), res)
+        return
+    if shard.get('units'):
+        for sh in list(SHAPES)[shard['lo']:shard['hi']]:
+            die = [10, 8] if sh.endswith('_int') else [8, 8]
+            for unit in UNITS:
+                check_case(dict(mods=[(sh, 0)], die=die, ratio=2.0, unit=unit), res)
+                if tier == 'thorough' or sh in Q5:
+                    check_case(dict(mods=[(sh, 0), ('softN', 1)], die=die, ratio=2.0, unit=unit), res)
+            check_case(dict(mods=[(sh, 3)], die=die, ratio=2.0, assign=True), res)
+            check_case(dict(mods=[(sh, 0), ('hardE', 1)], die=die, ratio=2.0, assign=True), res)
         return
     nl = netlists(tier)[shard['lo']:shard['hi']]
     for mods in nl:
